@@ -786,8 +786,8 @@ func (e *exec) query(s *Step) {
 		return
 	}
 	h := s.Version
-	if h < 1 {
-		return // height 0 means "default" (latest-1 at this level); covered through BaseApp in chainsim
+	if h < 0 {
+		return
 	}
 	var res abci.ResponseQuery
 	var pan interface{}
@@ -795,6 +795,18 @@ func (e *exec) query(s *Step) {
 		defer func() { pan = recover() }()
 		res = e.rs.Query(abci.RequestQuery{Path: "/" + name + "/key", Data: key, Height: h, Prove: s.Prove})
 	}()
+	if h == 0 && pan == nil {
+		// no height named: the store picks one and says which; everything below is judged against the height the
+		// response names (value and proof must belong to the same height)
+		h = res.Height
+		st.C("query_default_height", 1)
+		if h < 1 || h > e.m.latest {
+			if len(res.Value) != 0 || (res.Proof != nil && len(res.Proof.Ops) > 0) {
+				e.viol("C14", "data-for-absent-height", map[string]string{"kind": "default", "prove": fmt.Sprint(s.Prove)}, "a query without height answered for height %d (latest %d) with value %X / proof %v", h, e.m.latest, res.Value, res.Proof != nil)
+			}
+			return
+		}
+	}
 	kind := "retained"
 	switch {
 	case h > e.m.latest:
